@@ -202,7 +202,21 @@ FurtherExpressionContexts == {
     E("tuple-in-subject", <<"(", "a", ",", "(">>, <<")", ")", "IN", "(", "(", "1", ",", "2", ")", ")">>),
     E("tuple-in-element", <<"(", "a", ",", "b", ")", "IN", "(", "(", "1", ",", "(">>, <<")", ")", ")">>) }
 
-Contexts == BinaryContexts \cup OtherExpressionContexts \cup StatementContexts \cup FurtherStatementContexts \cup FurtherExpressionContexts
+\* Chains: a context repeated WITHOUT delimiters around its hole (1 = 1 = 1 ..., a IS NULL IS NULL ..., a [1] [1] ...,
+\* s UNION s UNION s ...).  A chain is a sequence, not nesting: a parser may read it by iteration, and then any length
+\* within the token limit is fine.  But a chain that is accepted and read by RECURSION has no delimiter to count: its
+\* stack use grows with its length.  For these the law is: accepted at two lengths => the stack the parser used does not
+\* grow with the length.
+Ch(n, pre, post) == [name |-> n, level |-> "chain", pre |-> pre, post |-> post, bare |-> FALSE]
+ChainContexts ==
+    {Ch("chain-right-of:" \o o, <<"1", o>>, <<>>) : o \in BinaryOps \cup {"<=", ">=", "<", ">", "<>", "IS DISTINCT FROM", "NOT LIKE", "IN", "^", "&", "|"}}
+    \cup {Ch("chain-left-of:" \o o, <<>>, <<o, "1">>) : o \in {"OR", "AND", "=", "+", "||", "*", "->", "LIKE"}}
+    \cup {Ch("chain-is-null", <<>>, <<"IS", "NULL">>), Ch("chain-is-not-null", <<>>, <<"IS", "NOT", "NULL">>),
+          Ch("chain-cast-colons", <<>>, <<"::", "INT">>), Ch("chain-subscript", <<>>, <<"[", "1", "]">>),
+          Ch("chain-between", <<"1", "BETWEEN", "0", "AND">>, <<>>), Ch("chain-not", <<"NOT">>, <<>>), Ch("chain-minus", <<"-">>, <<>>),
+          Ch("chain-collate", <<>>, <<"COLLATE", "x">>), Ch("chain-at-time-zone", <<>>, <<"AT", "TIME", "ZONE", "'UTC'">>)}
+
+Contexts == BinaryContexts \cup OtherExpressionContexts \cup StatementContexts \cup FurtherStatementContexts \cup FurtherExpressionContexts \cup ChainContexts
 
 VARIABLES ctx, done
 vars == <<ctx, done>>
@@ -220,6 +234,7 @@ Depths(s, i, d) == IF i > Len(s) THEN <<>>
                    ELSE LET n == IF s[i] \in Open THEN d + 1 ELSE IF s[i] \in Close THEN d - 1 ELSE d IN <<n>> \o Depths(s, i + 1, n)
 Final(s, d) == IF s = <<>> THEN d ELSE Depths(s, 1, d)[Len(s)]
 WellFormed ==
+    ctx.level = "chain" \/
     LET a == Depths(ctx.pre, 1, 0)
         mid == Final(ctx.pre, 0)
         b == Depths(ctx.post, 1, mid) IN
